@@ -20,28 +20,106 @@ AGG = "cminx.aggregator"
 
 # ----------------------------------------------------------------------
 def rule_decode(rep: Report, repo: Repo, rule: str) -> None:
-    rep.rule(rule, "the only reader of the input file is the FileStream(...) call in Documenter.__init__ and it decodes UTF-8")
+    rep.rule(rule, "the character stream handed to the lexer is the input file decoded as UTF-8, unaltered: FileStream(file, "
+                   "encoding='utf-8'), or InputStream(<text read from the file with encoding utf-8>) with no transformation in between")
     doc_cls = roles.documenter_class(repo)
     ci = repo.cls(doc_cls)
+    where = f"cminx.documenter:{doc_cls}.__init__"
+    init = ci.methods.get("__init__")
+    lex_calls = [n for n in ast.walk(ci.node) if isinstance(n, ast.Call) and call_name(n).split(".")[-1] == "CMakeLexer"]
+    if not lex_calls or init is None:
+        raise AnalysisError("anchor vanished: Documenter does not construct CMakeLexer")
     n = 0
-    for node in ast.walk(ci.node):
-        if isinstance(node, ast.Call) and call_name(node).split(".")[-1] in ("FileStream", "InputStream", "open", "StdinStream"):
-            nm = call_name(node).split(".")[-1]
-            n += 1
-            if nm == "FileStream":
-                enc = node.args[1] if len(node.args) > 1 else next((k.value for k in node.keywords if k.arg == "encoding"), None)
-                ok = isinstance(enc, ast.Constant) and isinstance(enc.value, str) and enc.value.lower().replace("_", "-") in ("utf-8", "utf8", "utf-8-sig")
-                rep.check(ok, rule, f"cminx.documenter:{doc_cls}.__init__", norm(node),
-                          "FileStream falls back to the runtime's default encoding 'ascii': any non-ASCII byte in the file raises "
-                          "UnicodeDecodeError", witness="# comment with an e-acute / a doc line containing a non-ASCII character",
-                          key=f"{rule}|filestream-encoding")
-            elif nm == "open":
-                enc = next((k.value for k in node.keywords if k.arg == "encoding"), None)
-                ok = isinstance(enc, ast.Constant) and str(enc.value).lower().replace("_", "-") in ("utf-8", "utf8", "utf-8-sig")
-                rep.check(ok, rule, f"cminx.documenter:{doc_cls}", norm(node)[:70], "the input is opened with the locale's encoding, not UTF-8")
-    if n == 0:
-        raise AnalysisError("anchor vanished: Documenter does not open its input through FileStream/open")
+    for lc in lex_calls:
+        if not lc.args:
+            rep.bad(rule, where, norm(lc), "the lexer is created without an input stream")
+            continue
+        src = _resolve_stream(lc.args[0], init)
+        n += 1
+        if src is None:
+            raise AnalysisError(f"cannot resolve the stream handed to CMakeLexer: {norm(lc.args[0])}")
+        nm = call_name(src).split(".")[-1]
+        if nm == "FileStream":
+            enc = src.args[1] if len(src.args) > 1 else next((k.value for k in src.keywords if k.arg == "encoding"), None)
+            ok = isinstance(enc, ast.Constant) and isinstance(enc.value, str) and enc.value.lower().replace("_", "-") in ("utf-8", "utf8", "utf-8-sig")
+            rep.check(ok, rule, where, norm(src),
+                      "FileStream falls back to the runtime's default encoding 'ascii': any non-ASCII byte in the file raises "
+                      "UnicodeDecodeError", witness="# comment with an e-acute / a doc line containing a non-ASCII character",
+                      key=f"{rule}|filestream-encoding")
+        elif nm == "InputStream":
+            arg = src.args[0] if src.args else None
+            ok, why = _is_raw_file_text(arg, init)
+            rep.check(ok, rule, where, norm(src)[:90],
+                      f"the text handed to the lexer is not the file's content as decoded from UTF-8 ({why}): characters are added, "
+                      f"removed or replaced before CMake's own token rules see them, so valid files are rejected or argument boundaries move",
+                      witness="a line comment / string containing U+2028, form feed or a lone CR")
+        else:
+            rep.bad(rule, where, norm(src)[:80], f"the lexer reads from `{nm}`, which is not a decoded view of the input file")
     rep.floor(rule, 1, "input readers")
+
+
+def _assignments(fn, target_text: str):
+    out = []
+    for n in walk_no_nested(fn):
+        if isinstance(n, ast.Assign):
+            for t in n.targets:
+                if norm(t) == target_text:
+                    out.append(n.value)
+        elif isinstance(n, ast.AnnAssign) and n.value is not None and norm(n.target) == target_text:
+            out.append(n.value)
+        elif isinstance(n, ast.With):
+            for it in n.items:
+                if it.optional_vars is not None and norm(it.optional_vars) == target_text:
+                    out.append(it.context_expr)
+    return out
+
+
+def _resolve_stream(e, fn, depth=0):
+    if depth > 4:
+        return None
+    if isinstance(e, ast.Call) and call_name(e).split(".")[-1] in ("FileStream", "InputStream", "StdinStream"):
+        return e
+    if isinstance(e, (ast.Name, ast.Attribute)):
+        defs = _assignments(fn, norm(e))
+        if len(defs) == 1:
+            return _resolve_stream(defs[0], fn, depth + 1)
+    return None
+
+
+def _utf8(call: ast.Call) -> bool:
+    enc = next((k.value for k in call.keywords if k.arg == "encoding"), None)
+    if enc is None and call_name(call) in ("open", "io.open", "codecs.open") and len(call.args) >= 4:
+        enc = call.args[3]
+    return isinstance(enc, ast.Constant) and str(enc.value).lower().replace("_", "-") in ("utf-8", "utf8", "utf-8-sig")
+
+
+def _is_raw_file_text(e, fn, depth=0):
+    """(True, '') if e evaluates to the unmodified text of the file read as UTF-8."""
+    if e is None or depth > 4:
+        return False, "no text"
+    if isinstance(e, ast.Name):
+        defs = _assignments(fn, e.id)
+        if len(defs) != 1:
+            return False, f"`{e.id}` has {len(defs)} definitions"
+        return _is_raw_file_text(defs[0], fn, depth + 1)
+    if isinstance(e, ast.Call) and isinstance(e.func, ast.Attribute):
+        if e.func.attr == "read" and not e.args:
+            recv = e.func.value
+            if isinstance(recv, ast.Call) and call_name(recv) in ("open", "io.open", "codecs.open"):
+                return (_utf8(recv), "the file is not opened with encoding='utf-8'")
+            if isinstance(recv, ast.Name):
+                defs = _assignments(fn, recv.id)
+                if len(defs) == 1 and isinstance(defs[0], ast.Call) and call_name(defs[0]) in ("open", "io.open", "codecs.open"):
+                    return (_utf8(defs[0]), "the file is not opened with encoding='utf-8'")
+            return False, f"`{norm(recv)}` is not a UTF-8 file object"
+        if e.func.attr == "read_text":
+            return (_utf8(e), "read_text without encoding='utf-8'")
+        if e.func.attr == "decode" and e.args and isinstance(e.args[0], ast.Constant) and str(e.args[0].value).lower().replace("_", "-") in ("utf-8", "utf8"):
+            return True, ""
+        return False, f"transformed by .{e.func.attr}(...)"
+    if isinstance(e, (ast.BinOp, ast.JoinedStr)):
+        return False, "text is concatenated / re-assembled"
+    return False, f"unrecognised source `{norm(e)[:40]}`"
 
 
 # ----------------------------------------------------------------------
